@@ -448,12 +448,14 @@ theorem removeInitial_spec {ix ix' : Index} {d : Cid} (h : ix.removeInitial d = 
     · simp at h
 
 /-- what `ConnectionIndex::remove` leaves in each table -/
-theorem remove_spec {ix ix' : Index} {conn : Meta} (h : ix.remove conn = some ix') :
+theorem remove_spec {ix ix' : Index} {ch : Nat} {conn : Meta} (h : ix.remove ch conn = some ix') :
     (∀ k, alookup k ix'.idsInitial =
         if conn.side = .server ∧ conn.initCid ≠ [] ∧ conn.initCid = k then none else alookup k ix.idsInitial) ∧
     (∀ c, alookup c ix'.ids = if c ∈ conn.locCids.map (fun e => e.2) then none else alookup c ix.ids) ∧
-    (∀ a, alookup a ix'.inRemotes = if conn.addresses = a then none else alookup a ix.inRemotes) ∧
-    (∀ r, alookup r ix'.outRemotes = if conn.addresses.remote = r then none else alookup r ix.outRemotes) ∧
+    (∀ a, alookup a ix'.inRemotes =
+        if conn.addresses = a ∧ alookup a ix.inRemotes = some ch then none else alookup a ix.inRemotes) ∧
+    (∀ r, alookup r ix'.outRemotes =
+        if conn.addresses.remote = r ∧ alookup r ix.outRemotes = some ch then none else alookup r ix.outRemotes) ∧
     (∀ k, alookup k ix'.tokens = if conn.resetToken = some k then none else alookup k ix.tokens) := by
   unfold Index.remove at h
   split at h
@@ -474,17 +476,49 @@ theorem remove_spec {ix ix' : Index} {conn : Meta} (h : ix.remove conn = some ix
         intro k; simp [hsv]
     obtain ⟨e1, e2, e3, e4, e5⟩ := hix1
     subst h
+    have hin : ∀ a, alookup a (if alookup conn.addresses ix1.inRemotes = some ch
+          then aerase conn.addresses ix1.inRemotes else ix1.inRemotes) =
+        if conn.addresses = a ∧ alookup a ix.inRemotes = some ch then none else alookup a ix.inRemotes := by
+      intro a
+      rw [e2]
+      by_cases hc : alookup conn.addresses ix.inRemotes = some ch
+      · simp only [hc, if_true, alookup_aerase]
+        by_cases ha : conn.addresses = a
+        · subst ha; simp [hc]
+        · simp [ha]
+      · simp only [hc, if_false]
+        by_cases ha : conn.addresses = a
+        · subst ha; simp [hc]
+        · simp [ha]
+    have hout : ∀ r, alookup r (if alookup conn.addresses.remote ix1.outRemotes = some ch
+          then aerase conn.addresses.remote ix1.outRemotes else ix1.outRemotes) =
+        if conn.addresses.remote = r ∧ alookup r ix.outRemotes = some ch then none else alookup r ix.outRemotes := by
+      intro r
+      rw [e3]
+      by_cases hc : alookup conn.addresses.remote ix.outRemotes = some ch
+      · simp only [hc, if_true, alookup_aerase]
+        by_cases ha : conn.addresses.remote = r
+        · subst ha; simp [hc]
+        · simp [ha]
+      · simp only [hc, if_false]
+        by_cases ha : conn.addresses.remote = r
+        · subst ha; simp [hc]
+        · simp [ha]
     refine ⟨?_, ?_, ?_, ?_, ?_⟩
-    · intro k; split <;> exact e5 k
-    · intro c; split <;> simp only [alookup_eraseAll, e1]
-    · intro a; split <;> simp only [alookup_aerase, e2]
-    · intro r; split <;> simp only [alookup_aerase, e3]
+    · intro k; split <;> (split <;> (split <;> exact e5 k))
+    · intro c; split <;> (split <;> (split <;> simp only [alookup_eraseAll, e1]))
+    · intro a
+      have := hin a
+      split <;> (split <;> (split <;> (simp_all <;> (intro e; subst e; assumption))))
+    · intro r
+      have := hout r
+      split <;> (split <;> (split <;> (simp_all <;> (intro e; subst e; assumption))))
     · intro k
       split
       · rename_i k0 hk0
-        simp only [alookup_aerase, e4, hk0, Option.some.injEq]
+        split <;> (split <;> simp only [alookup_aerase, e4, hk0, Option.some.injEq])
       · rename_i hk0
-        simp [hk0, e4]
+        split <;> (split <;> simp [hk0, e4])
 
 /-- `EndpointEvent::Drained` -/
 theorem sound_drained {s s' : State} {ch : Nat} (hs : Sound s) (h : evDrained s ch = some s') : Sound s' := by
@@ -613,9 +647,21 @@ theorem sound_add_client {s s1 s2 : State} {ch : Nat} {remote : Addr} {initCid l
         exact ⟨m0, q, by rw [a4 h this]; exact h1, h2⟩
     all_goals (sound_facts hs; grind [alookup_ainsert])
 
-/-- `Endpoint::connect` when the TLS layer accepts the server name -/
-theorem sound_connect {s s' : State} {remote : Addr} {initCid : Cid} {cands : List Cid} {res : ConnectResult}
-    (hs : Sound s) (h : connect s remote initCid true cands = some (s', res)) : Sound s' := by
+/-- `new_cid` followed by `index.retire(loc_cid)` (the TLS-error exit of `connect`) leaves every table as
+    it was -/
+theorem sound_newCid_retire {s s1 : State} {ch : Nat} {loc : Cid} {cands c1 : List Cid}
+    (hs : Sound s) (hnew : newCid s ch cands = some (loc, s1, c1)) :
+    Sound { s1 with index := s1.index.retire loc } := by
+  rcases newCid_spec hnew with ⟨rfl, h0, rfl⟩ | ⟨hne, h0, hnone, rfl⟩
+  · constructor <;> simp only [Index.retire]
+    all_goals (sound_facts hs; grind [alookup_aerase])
+  · constructor <;> simp only [Index.retire]
+    all_goals (sound_facts hs; grind [alookup_aerase, alookup_ainsert])
+
+/-- `Endpoint::connect`, every exit -/
+theorem sound_connect {s s' : State} {remote : Addr} {initCid : Cid} {tls : Bool} {cands : List Cid}
+    {res : ConnectResult} (hs : Sound s) (h : connect s remote initCid tls cands = some (s', res)) :
+    Sound s' := by
   unfold connect at h
   split at h
   · simp only [Option.some.injEq, Prod.mk.injEq] at h; obtain ⟨rfl, -⟩ := h; exact hs
@@ -625,11 +671,13 @@ theorem sound_connect {s s' : State} {remote : Addr} {initCid : Cid} {cands : Li
       split at h
       · simp at h
       · rename_i loc s1 c1 hnew
-        simp only [Bool.not_true, Bool.false_eq_true, if_false] at h
         split at h
-        · simp at h
-        · rename_i s2 hadd
-          simp only [Option.some.injEq, Prod.mk.injEq] at h; obtain ⟨rfl, -⟩ := h
-          exact sound_add_client hs hnew hadd
+        · simp only [Option.some.injEq, Prod.mk.injEq] at h; obtain ⟨rfl, -⟩ := h
+          exact sound_newCid_retire hs hnew
+        · split at h
+          · simp at h
+          · rename_i s2 hadd
+            simp only [Option.some.injEq, Prod.mk.injEq] at h; obtain ⟨rfl, -⟩ := h
+            exact sound_add_client hs hnew hadd
 
 end QM.Index
